@@ -1488,3 +1488,44 @@ def numeric_predicate_on_symbols_rule(ctx, rid, prefixes, floor=3):
                    m.rel, hits[0].lineno)
     if n == 0:
         raise AnalysisError(f'{rid}: no numpy predicate on an exponent-like attribute found under {prefixes}')
+
+
+def paired_sort_rule(ctx, rid, floor=1):
+    """Two sequences that describe the same items position by position are sorted as pairs, never each on its own."""
+    repo = ctx.repo
+    ctx.decided.append(f'{rid} equality values of controlled operations / gates order the controls together with their value columns (one sort over the pairs)')
+    ctx.rule(rid, 'paired sequences are sorted as pairs: in _value_equality_values_ of a class with `controls` / control values, the canonical order comes from one sorted() over the '
+             'zipped (control, values) pairs; two separate sorted() calls - one over the controls, one over their value columns - lose which values belong to which control, so '
+             'controlled_by(a, b, control_values=[0, 1]) equals control_values=[1, 0]', floor=floor, style='COH')
+    n = 0
+    for ci in sorted(repo.classes.values(), key=lambda c: c.qual):
+        if ci.mod.rel.endswith('_test.py') or '/testing/' in ci.mod.rel or '/contrib/' in ci.mod.rel:
+            continue
+        fn = ci.methods.get('_value_equality_values_')
+        if fn is None:
+            continue
+        sorts = [c for c in ast.walk(fn) if isinstance(c, ast.Call) and call_name(c) == 'sorted' and c.args]
+        if not sorts:
+            continue
+        src = ast.unparse(fn)
+        if 'controls' not in src:
+            continue
+        n += 1
+        # locals -> what they were computed from (one level)
+        defs = {a.targets[0].id: ast.unparse(a.value) for a in ast.walk(fn) if isinstance(a, ast.Assign) and len(a.targets) == 1 and isinstance(a.targets[0], ast.Name)}
+
+        def text(e):
+            t = ast.unparse(e)
+            for k, v in defs.items():
+                if k in {x.id for x in ast.walk(e) if isinstance(x, ast.Name)}:
+                    t += ' ' + v
+            return t
+        over_controls = [c for c in sorts if 'controls' in text(c.args[0]) and 'zip' not in ast.unparse(c.args[0]) and not any(isinstance(x, ast.Call) and call_name(x) == 'zip' for x in ast.walk(c.args[0]))]
+        over_values = [c for c in sorts if c not in over_controls and ('control_values' in text(c.args[0]) or 'cval' in text(c.args[0]) or 'expand' in text(c.args[0]))
+                       and not any(isinstance(x, ast.Call) and call_name(x) == 'zip' for x in ast.walk(c.args[0]))]
+        bad = bool(over_controls) and bool(over_values)
+        ctx.ob(rid, f'{ci.qual}._value_equality_values_:controls-with-values', not bad, '' if not bad else
+               f'`{ast.unparse(over_controls[0])[:50]}` and `{ast.unparse(over_values[0])[:50]}` are sorted separately: the pairing of each control with its accepted values is lost', ci.mod.rel,
+               over_controls[0].lineno if bad else fn.lineno)
+    if n == 0:
+        raise AnalysisError(f'{rid}: no equality values that sort controls found')
